@@ -74,7 +74,10 @@ class RecDist:
 # ---------------------------------------------------------------------------------------
 # operations
 def sim_op(*theta, batch_size=1, random_state=None, meta=None, width=2, noise=0.4, node='S', coefs=None,
-           use_meta=False):
+           use_meta=False, delays=None):
+    if delays and meta is not None:
+        import time
+        time.sleep(delays[meta['batch_index'] % len(delays)])
     th = np.column_stack([np.broadcast_to(np.asarray(t, dtype=float).reshape(-1), (batch_size,)) for t in theta])
     before = rs_digest(random_state) if RECORD['on'] else None
     coefs = np.asarray(coefs if coefs is not None else np.ones(th.shape[1]))
@@ -185,7 +188,7 @@ def gen_spec(rng, max_params=3, flavours=('cont', 'quant', 'inf', 'quantinf'), h
     return spec
 
 
-def build(spec, name='m', order=None, record_dists=True, sim_meta=False):
+def build(spec, name='m', order=None, record_dists=True, sim_meta=False, delays=None):
     """Build the ElfiModel of a spec. `order`: creation order of the parameter nodes
     (a permutation that respects references) - for C02 insertion-order variants."""
     import elfi
@@ -211,7 +214,8 @@ def build(spec, name='m', order=None, record_dists=True, sim_meta=False):
         make_param(p)
     P = [made[p['name']] for p in spec['params']]
     s = spec['sim']
-    fn = functools.partial(sim_op_meta if sim_meta else sim_op, width=s['width'], noise=s['noise'], coefs=s['coefs'], node='S')
+    fn = functools.partial(sim_op_meta if sim_meta else sim_op, width=s['width'], noise=s['noise'], coefs=s['coefs'], node='S',
+                           **({'delays': delays} if delays else {}))
     obs = np.asarray(spec['obs'], dtype=float)[None, :]
     OBS['bytes'] = obs.tobytes()
     S = elfi.Simulator(fn, *P, model=m, name='S', observed=obs)
